@@ -298,6 +298,8 @@ type Solver struct {
 	Wait    time.Duration
 	Errors  []string
 	ByProc  map[string]int
+
+	portfolio bool
 }
 
 // NewSolver builds a portfolio. name: "" or "portfolio" (cvc5 int-blasting
@@ -306,12 +308,13 @@ func NewSolver(tt *Table, name string, timeoutMs int) (*Solver, error) {
 	s := &Solver{Name: name, tt: tt, ByProc: map[string]int{}}
 	switch name {
 	case "", "portfolio":
-		s.Name = "portfolio(cvc5 --solve-bv-as-int=sum, z3 4.8.12)"
+		s.Name = "portfolio(cvc5 --solve-bv-as-int=sum, cvc5, z3 5.1.0)"
 		fast := 1500
 		if fast > timeoutMs {
 			fast = timeoutMs
 		}
-		s.procs = []*proc{{kind: "cvc5-int", timeoutMs: fast}, {kind: "z3", timeoutMs: timeoutMs}}
+		s.procs = []*proc{{kind: "cvc5-int", timeoutMs: fast}, {kind: "cvc5", timeoutMs: timeoutMs / 2}, {kind: "z3-new", timeoutMs: timeoutMs}}
+		s.portfolio = true
 	default:
 		s.procs = []*proc{{kind: name, timeoutMs: timeoutMs}}
 	}
@@ -357,7 +360,14 @@ func (s *Solver) Check(lits []*Term, wantModel bool) (Result, Model) {
 		sb.WriteString("(assert " + smtName(l) + ")\n")
 	}
 	body := sb.String()
-	for _, p := range s.procs {
+	order := s.procs
+	if s.portfolio && bitwiseCone(seen) {
+		// comparison-only queries go to the integer encoding first; queries
+		// with masks, shifts or table look-ups (UTF-8 decoding) are faster
+		// with bit-blasting
+		order = []*proc{s.procs[1], s.procs[2], s.procs[0]}
+	}
+	for _, p := range order {
 		t0 := time.Now()
 		res, m, errMsg := p.query(body, vars, wantModel)
 		d := time.Since(t0)
@@ -383,6 +393,18 @@ func (s *Solver) Check(lits []*Term, wantModel bool) (Result, Model) {
 	}
 	s.UnkN++
 	return Unknown, nil
+}
+
+// bitwiseCone reports whether the terms of a query use bit-level operators.
+func bitwiseCone(seen map[*Term]bool) bool {
+	n := 0
+	for t := range seen {
+		switch t.Op {
+		case OpAnd, OpOr, OpXor, OpBvNot, OpShl, OpLShr, OpAShr, OpExtract:
+			n++
+		}
+	}
+	return n > 0
 }
 
 func tokenize(s string) []string {
